@@ -24,6 +24,9 @@ FLAGS = [
     ('cd_match_skips_padding gen_codec', 'c12-call-typing',
      'call arguments are matched against all parameters including defaulted padding: with signature S_f the call (1, 2.0) is rejected and '
      '(1, 2) is accepted and panics in encode_args; theorem C12_call_typing_refuted', 'f13b_padding_param_shift_accepts_invalid.anm.spec'),
+    ('cd_nulless_furibug_rejected gen_codec', 'c12-nulless-furibug',
+     'a string parameter with both nulless and furibug is accepted; after a furigana line its text reads back with that line\'s masked bytes '
+     'attached (or not at all); theorem C12_nulless_furibug_refuted', None),
 ]
 
 def run_harness(v, args, seed):
@@ -61,19 +64,21 @@ def main(argv):
         vals = eval_flags(v)
         for i, (term, cls, what, repro) in enumerate(FLAGS):
             if vals.get(i) is False:
-                p = os.path.join(VERIF, 'findings', 'repro', repro)
-                v.violation(what, {'class': cls, 'flag': term, 'source_file': 'findings/repro/' + repro,
-                                   'source_text': open(p).read() if os.path.exists(p) else None})
+                p = os.path.join(VERIF, 'findings', 'repro', repro) if repro else None
+                v.violation(what, {'class': cls, 'flag': term, 'source_file': ('findings/repro/' + repro) if repro else None,
+                                   'source_text': open(p).read() if p and os.path.exists(p) else None})
         v.obligation('defect switches of the generated table evaluated (%s)' % ', '.join(
             '%s=%s' % (FLAGS[i][0].split()[0], vals.get(i)) for i in range(len(FLAGS))), len(vals) == len(FLAGS))
 
     cases, texts, kinds = [], [], []
     oracle_fail = []
     stats = []
+    replay_class = None
     if h_ok:
         lines = []
         if replay:
             r = json.load(open(replay))
+            replay_class = r.get('class')
             d = os.path.join(WORK, 'c12'); os.makedirs(d, exist_ok=True)
             if r.get('input'):
                 p = os.path.join(d, 'replay.txt'); open(p, 'w').write(r['input'] + '\n')
@@ -81,8 +86,17 @@ def main(argv):
             if r.get('case'):
                 lines.append('%s\t%s\t%s' % (r.get('kind', 'COMP'), r['case'], r.get('input', '')))
         else:
-            n_codec = 320 if tier == 'quick' else 16000
-            n_intr = 160 if tier == 'quick' else 6000
+            # corpus first: the seed reproductions and earlier minimised failures, through the replay oracle
+            for f in sorted(glob.glob(os.path.join(VERIF, 'corpus', 'C12', '*.txt'))):
+                m = re.search(r'^#class=(\S+)', open(f).read(), re.M)
+                for l in run_harness(v, ['replay', f], seed):
+                    parts = l.split('\t')
+                    if parts[0] == 'ORACLE-FAIL':
+                        if m and parts[1].startswith('replay:'): parts[1] = m.group(1) + parts[1][len('replay'):]
+                        parts[1] += ' (corpus/C12/%s)' % os.path.basename(f)
+                        lines.append('\t'.join(parts))
+            n_codec = 320 if tier == 'quick' else 7000
+            n_intr = 160 if tier == 'quick' else 2500
             lines += run_harness(v, ['repro'], seed) + run_harness(v, ['boundaries'], seed)
             lines += run_harness(v, ['codec', n_codec], seed) + run_harness(v, ['intrinsic', n_intr], seed)
         for l in lines:
@@ -100,6 +114,7 @@ def main(argv):
     for f in oracle_fail:
         token = f[0].split(':')[0]
         cls = ORACLE_CLASS.get(token, 'c12-oracle:' + token)
+        if token == 'replay' and replay_class: cls = replay_class      # a replayed input keeps the class it was recorded under
         seen.setdefault(cls, []).append(f)
     for cls, fs in seen.items():
         f = fs[0]
@@ -111,7 +126,10 @@ def main(argv):
         mism, errs = coq_eval_cases(PROP, IMPORTS, 'c12case', cases, shard=250 if tier == 'quick' else 600)
         v.obligation('correspondence: model = implementation on %d cases (vm_compute inside Coq)' % len(cases), not mism and not errs,
                      ('%d mismatches; ' % len(mism)) + '; '.join(errs)[:600] if (mism or errs) else '')
-        for i in mism[:5]:
+        shown = set()
+        for i in mism:
+            if cases[i] in shown or len(shown) >= 5: continue
+            shown.add(cases[i])
             v.violation('model/implementation disagreement on a %s case' % kinds[i],
                         {'class': 'c12-corr:' + kinds[i], 'kind': kinds[i], 'case': cases[i], 'input': texts[i].split(' >> ')[0],
                          'detail': texts[i][-400:], 'broken': 'correspondence Corr.C12.model_of'},
